@@ -11,7 +11,9 @@ void vf_sess_set_seq(Session *s, unsigned next_send, unsigned next_recv) { s->_n
 void vf_sess_set_state(Session *s, int st) { s->_state = States::SessionStates(st); }
 void vf_sess_set_active(Session *s, bool a) { s->_active = a; }
 void vf_sess_set_req_seq(Session *s, unsigned rs, unsigned rr) { s->_req_next_send_seq = rs; s->_req_next_receive_seq = rr; }
-void vf_sess_set_ptrs(Session *s, Connection *c, Persister *p) { s->_connection = c; s->_persist = p; s->_sf = nullptr; s->_logger = nullptr; s->_plogger = nullptr; s->_schedule = nullptr; }
+// collaborators: connection and persister; _sf, _logger, _plogger, _schedule stay null (zero static storage).  No stores of adjacent
+// nulls here: clang would merge them into a memset over part of the object, which costs CBMC its field sensitivity for the whole Session
+void vf_sess_set_ptrs(Session *s, Connection *c, Persister *p) { s->_connection = c; s->_persist = p; }
 // (the reference member Session::_ctx is set by the C harness on the generated struct: see harness/sess_in_world.h)
 unsigned vf_sess_next_send(Session *s) { return s->_next_send_seq; }
 unsigned vf_sess_next_recv(Session *s) { return s->_next_receive_seq; }
